@@ -121,6 +121,8 @@ def run_family(prop, tier, propfile, components, oracle, n_quick, n_thorough, ru
     dist['history:%s' % (case.get('history') or 'fresh-object')] += 1
     dist['zero-sum-geo'] += 'zero_sum_geo' in case
     dist['volume-drift-with-short-window'] += 'drift' in case
+    dist['integer-response-column'] += bool(case.get('int_response'))
+    dist['integer-parameters-as-floats'] += bool(case.get('float_valued_integers'))
     if case.get('history') == 'second-matcher':
       eff = [out.get('other_index_installed')] + [out[nm].get('other_index_installed') for nm in ('exhaustive', 'greedy') if nm in out]
       dist['history:second-matcher left another geo index on the shared data object'] += any(e is True for e in eff)
